@@ -314,5 +314,67 @@ func genG11Shutdown(repo string, w *Out) error {
 	runSrc := hp.Src(run.Body)
 	w.DefBool("run_serves_every_listener_on_one_proxy",
 		strings.Contains(runSrc, "for i := range hp.listeners") && strings.Contains(runSrc, "hp.proxy.Serve(l)"))
+
+	// ---- the exported count of open connections (gauge listener_cx_active), model coq/g11/Gauge.v:
+	// Listener.Accept increments it and wraps the connection so that closing it decrements it once
+	ct, err := Parse(repo, "conntrack/conntrack.go")
+	if err != nil {
+		return err
+	}
+	clc, err := ct.Func("closeListener.Close")
+	if err != nil {
+		return err
+	}
+	var closeProg []string
+	for _, st := range clc.Body.List {
+		closeProg = append(closeProg, strings.Join(strings.Fields(ct.Src(st)), " "))
+	}
+	w.DefStrList("conntrack_close_prog", closeProg)
+	cc, err := ct.Func("closeConn.Close")
+	if err != nil {
+		return err
+	}
+	w.DefStr("conntrack_conn_close_body", strings.Join(strings.Fields(ct.Src(cc.Body)), " "))
+	nf, err := Parse(repo, "net.go")
+	if err != nil {
+		return err
+	}
+	la, err := nf.Func("Listener.Accept")
+	if err != nil {
+		return err
+	}
+	// statements of Accept that touch the metrics or wrap the connection, in order
+	var accProg []string
+	for _, st := range la.Body.List {
+		src := strings.Join(strings.Fields(nf.Src(st)), " ")
+		switch {
+		case strings.HasPrefix(src, "conn, err := l.listener.Accept()"):
+			accProg = append(accProg, "accept")
+		case strings.HasPrefix(src, "if err != nil {") && strings.Contains(src, "return nil, err"):
+			accProg = append(accProg, "error-return")
+		case src == "l.metrics.accept()":
+			accProg = append(accProg, "metrics-accept")
+		case strings.HasPrefix(src, "conn = conntrack.Builder{") && strings.Contains(src, "OnClose: l.metrics.close,") && strings.HasSuffix(src, "}.Build(conn)"):
+			accProg = append(accProg, "wrap-onclose-metrics-close")
+		case strings.Contains(src, "metrics") || strings.Contains(src, "conntrack"):
+			accProg = append(accProg, "?:"+src)
+		}
+	}
+	w.DefStrList("listener_accept_gauge_prog", accProg)
+	nm, err := Parse(repo, "net_metrics.go")
+	if err != nil {
+		return err
+	}
+	for _, x := range []struct{ fn, def string }{{"listenerMetrics.accept", "metrics_accept_prog"}, {"listenerMetrics.close", "metrics_close_prog"}} {
+		fd, err := nm.Func(x.fn)
+		if err != nil {
+			return err
+		}
+		var prog []string
+		for _, st := range fd.Body.List {
+			prog = append(prog, strings.Join(strings.Fields(nm.Src(st)), " "))
+		}
+		w.DefStrList(x.def, prog)
+	}
 	return nil
 }
